@@ -255,6 +255,16 @@ func runC05(c *core.Ctx) {
 		})
 	}
 	c.Min("C05-R4", nFin, 7, "success exits that must set Finished")
+	// the per-share verification behind the fallback and the duplicate resolution
+	ensures(c, "C05-R4", bp+"verifyBeaconPartialSignature", "err=nil", []Req{
+		{"signer-is-committee-member", "eq(p0.Share.Committee[_].OperatorID, p1)", "an unknown signer must be refused"},
+		{"pubkey-of-that-member", "ok(ssv/protocol/v2/types.DeserializeBLSPublicKey(p0.Share.Committee[_].PubKey))", "the share must be checked against the signer's own public key"},
+		{"sig-deserialised", "ok(github.com/herumi/bls-eth-go-binary/bls.Sign.Deserialize(*, p2))", "a malformed partial signature must be refused (otherwise the fallback keeps it and the quorum edge never fires again)"},
+		{"bls-verify", "T(github.com/herumi/bls-eth-go-binary/bls.Sign.VerifyByte(*, *, p3[:]))", "the share must verify over the root"},
+	})
+	atCalls(c, "C05-R4", bp+"FallBackAndVerifyEachSignature", "ssv-spec/ssv.PartialSigContainer.Remove", []Req{
+		{"only-invalid-evicted", "fail(ssv/protocol/v2/ssv/runner.BaseRunner.verifyBeaconPartialSignature(p0, *, *, p2))", "only shares that fail verification are evicted"},
+	})
 	ensures(c, "C05-R4", bp+"hasRunningDuty", "ret=true", []Req{
 		{"not-finished", "F(p0.State.Finished)", "hasRunningDuty must be false once Finished is set"},
 	})
